@@ -394,9 +394,14 @@ type c14FStep struct {
 	Lay   int    `json:"lay,omitempty"`  // reset: 0 own packet, 1 bundled after a fresh DATA chunk, 2 before it
 	Rev   bool   `json:"rev,omitempty"`  // release: newest first
 	Ms    int    `json:"ms,omitempty"`
+	// vclose: the endpoint's application closes its stream SID; the puppet answers the reset
+	// request and resets its own direction too: Mode 0 two RE-CONFIG chunks, 1 one chunk with
+	// (response, request) as RFC 6525 3.1 lists the pair, 2 one chunk with (request, response)
+	Mode int `json:"mode,omitempty"`
 }
 
 type c14Foreign struct {
+	Opt vfOptMix `json:"opt,omitempty"` // options that must not matter here
 	IL    bool       `json:"il"`
 	TSN   uint32     `json:"tsn"`
 	Steps []c14FStep `json:"steps"`
@@ -404,6 +409,7 @@ type c14Foreign struct {
 
 func genC14Foreign(rt *rapid.T) c14Foreign {
 	x := c14Foreign{IL: rapid.Bool().Draw(rt, "il"), TSN: genTSN(rt, "tsn", 8448)}
+	x.Opt = genOptMix(rt, "opt")
 	n := rapid.IntRange(2, 24).Draw(rt, "n")
 	for i := 0; i < n; i++ {
 		var st c14FStep
@@ -415,11 +421,15 @@ func genC14Foreign(rt *rapid.T) c14Foreign {
 			st.SIDs = rapid.SliceOfNDistinct(rapid.SampledFrom([]int{0, 1, 2, 7}), 1, 3, rapid.ID[int]).Draw(rt, "sids")
 			st.SID = st.SIDs[0]
 		case 7:
-			st = c14FStep{K: "rereq"}
+			st = c14FStep{K: "vclose", SID: rapid.IntRange(0, 2).Draw(rt, "sid"), Mode: rapid.IntRange(0, 2).Draw(rt, "mode")}
 		case 8:
 			st = c14FStep{K: "release", Rev: rapid.Bool().Draw(rt, "rev")}
 		default:
-			st = c14FStep{K: "wait", Ms: rapid.SampledFrom([]int{1, 15, 250, 1200}).Draw(rt, "ms")}
+			if rapid.Bool().Draw(rt, "rereq") {
+				st = c14FStep{K: "rereq"}
+			} else {
+				st = c14FStep{K: "wait", Ms: rapid.SampledFrom([]int{1, 15, 250, 1200}).Draw(rt, "ms")}
+			}
 		}
 		x.Steps = append(x.Steps, st)
 	}
@@ -429,8 +439,9 @@ func genC14Foreign(rt *rapid.T) c14Foreign {
 func runC14Foreign(t *testing.T, x c14Foreign, verbose bool) (c vfCase) {
 	var e1 vfE1
 	e1.Cfg[0] = vfSideCfg{IL: x.IL, TSN: 1000, RTOMax: 2000}
+	x.Opt.apply(&e1.Cfg[0])
 	e1.Cfg[1] = vfSideCfg{IL: x.IL, TSN: x.TSN}
-	overtaken, bundledReq, reused, unknownSID := false, false, false, false
+	overtaken, bundledReq, reused, unknownSID, twoParams, vclosed := false, false, false, false, false, false
 	pm := vfBubble(t, func() {
 		s := newVfSim(t, &e1, verbose)
 		p := newVfPuppet(s, 1, vfPuppetCfg{IL: x.IL, TSN: x.TSN, ARwnd: 1 << 20})
@@ -511,6 +522,8 @@ func runC14Foreign(t *testing.T, x c14Foreign, verbose bool) (c vfCase) {
 			return wChunk{Type: wtRECONFIG, Params: []wTLV{{Type: 13, Val: v}}}
 		}
 		badResult := ""
+		replies := map[uint32][][]byte{}
+		vcloseMode := -1
 		p.onPacket = func(pk *wPacket) {
 			for i := range pk.Chunks {
 				ch := &pk.Chunks[i]
@@ -518,6 +531,81 @@ func runC14Foreign(t *testing.T, x c14Foreign, verbose bool) (c vfCase) {
 					continue
 				}
 				for _, par := range ch.Params {
+					if par.Type == 13 && len(par.Val) >= 12 {
+						// the endpoint resets its outgoing direction: answer "performed", and (first time,
+						// if nothing else is pending) reset our direction of those streams as well
+						vseq := binary.BigEndian.Uint32(par.Val[0:])
+						rv := make([]byte, 8)
+						binary.BigEndian.PutUint32(rv[0:], vseq)
+						binary.BigEndian.PutUint32(rv[4:], 1)
+						resp := wTLV{Type: 16, Val: rv}
+						if prev, ok := replies[vseq]; ok {
+							// a retransmitted request gets the same answer in the same layout again
+							for _, raw := range prev {
+								p.sendRaw(raw)
+							}
+							continue
+						}
+						if vcloseMode < 0 {
+							p.sendRaw(pack(wChunk{Type: wtRECONFIG, Params: []wTLV{resp}}))
+							continue
+						}
+						var sids []int
+						for o := 12; o+2 <= len(par.Val); o += 2 {
+							sids = append(sids, int(binary.BigEndian.Uint16(par.Val[o:])))
+						}
+						busy := false
+						for _, r := range reqs {
+							if !r.done {
+								busy = true
+							}
+						}
+						var own []int
+						for _, sid := range sids {
+							if l := incs[sid]; len(l) > 0 && !l[len(l)-1].reset && !l[len(l)-1].closed {
+								own = append(own, sid)
+							}
+						}
+						if busy || len(own) == 0 {
+							raw := pack(wChunk{Type: wtRECONFIG, Params: []wTLV{resp}})
+							replies[vseq] = [][]byte{raw}
+							p.sendRaw(raw)
+							continue
+						}
+						r := &req{seq: reqSeq, sids: own, last: p.nextTSN - 1, sentN: 1}
+						reqSeq++
+						for _, sid := range own {
+							in := cur(sid)
+							in.reset = true
+							r.incs = append(r.incs, in)
+						}
+						r.raw = mkReq(r)
+						reqs = append(reqs, r)
+						rq := r.raw.Params[0]
+						var out [][]byte
+						switch vcloseMode {
+						case 0:
+							out = [][]byte{pack(wChunk{Type: wtRECONFIG, Params: []wTLV{resp}}), pack(r.raw)}
+						case 1:
+							out = [][]byte{pack(wChunk{Type: wtRECONFIG, Params: []wTLV{resp, rq}})}
+							twoParams = true
+						default:
+							out = [][]byte{pack(wChunk{Type: wtRECONFIG, Params: []wTLV{rq, resp}})}
+							twoParams = true
+						}
+						if vcloseMode != 0 {
+							// the request travels only inside that chunk: its own retransmissions use it too
+							r.raw = wChunk{Type: wtRECONFIG, Params: []wTLV{resp, rq}}
+							if vcloseMode == 2 {
+								r.raw.Params = []wTLV{rq, resp}
+							}
+						}
+						replies[vseq] = out
+						for _, raw := range out {
+							p.sendRaw(raw)
+						}
+						continue
+					}
 					if par.Type != 16 || len(par.Val) < 8 {
 						continue
 					}
@@ -624,6 +712,19 @@ func runC14Foreign(t *testing.T, x c14Foreign, verbose bool) (c vfCase) {
 				}
 				r.sentN = 1
 				reqs = append(reqs, r)
+			case "vclose":
+				s.mu.Lock()
+				var h *vfStreamH
+				if l := s.bySID[0][uint16(st.SID)]; len(l) > 0 {
+					h = l[len(l)-1]
+				}
+				s.mu.Unlock()
+				if h != nil && h.s.State() == StreamStateOpen {
+					vcloseMode = st.Mode
+					_ = h.s.Close()
+					vclosed = true
+					s.o.settle(50 * time.Millisecond)
+				}
 			case "rereq":
 				if len(reqs) > 0 {
 					r := reqs[len(reqs)-1]
@@ -664,6 +765,16 @@ func runC14Foreign(t *testing.T, x c14Foreign, verbose bool) (c vfCase) {
 			}
 		}
 		s.o.settle(time.Second)
+		if vclosed {
+			a := s.as[0]
+			a.lock.RLock()
+			nre := len(a.reconfigs)
+			a.lock.RUnlock()
+			if nre != 0 || a.tReconfig.isRunning() {
+				c.fail("own-reset-not-settled", "the endpoint's own reset request was answered 'performed' by the peer (in the layout of mode %d) but %d request(s) are still outstanding / the reconfiguration timer is still running", vcloseMode, nre)
+				return
+			}
+		}
 		// reads per incarnation
 		s.mu.Lock()
 		reads := append([]vfReadRec(nil), s.reads...)
@@ -704,10 +815,10 @@ func runC14Foreign(t *testing.T, x c14Foreign, verbose bool) (c vfCase) {
 						c.fail("data-after-eof", "stream %d incarnation %d: a message was read after EOF", sid, g)
 						return
 					}
-					if pool[r.Hash] > 0 {
-						pool[r.Hash]--
-					} else if oi < len(wo) && wo[oi].hash == r.Hash {
+					if oi < len(wo) && wo[oi].hash == r.Hash {
 						oi++
+					} else if pool[r.Hash] > 0 {
+						pool[r.Hash]--
 					} else {
 						c.fail("foreign-message-wrong", "stream %d incarnation %d: read a message of %d bytes that is not the next one the peer sent in this incarnation (ordered %d of %d read so far)", sid, g, r.N, oi, len(wo))
 						return
@@ -753,7 +864,13 @@ func runC14Foreign(t *testing.T, x c14Foreign, verbose bool) (c vfCase) {
 	if unknownSID {
 		c.class("request-lists-unknown-stream")
 	}
-	c.Nontrivial = overtaken || bundledReq || reused
+	if vclosed {
+		c.class("endpoint-closed-a-stream")
+	}
+	if twoParams {
+		c.class("response-and-request-in-one-chunk")
+	}
+	c.Nontrivial = overtaken || bundledReq || reused || twoParams
 	return c
 }
 
